@@ -68,6 +68,13 @@ def skeleton(src, q):
         sens_addrs = [(2, 0), (3, 0)]
         edefs = [('e_ssh', 0)]
         pdefs = [('pe_tomcat', 0)]
+    elif sk == 'C':
+        # one large subnet: two-digit host indices
+        sizes, services, oss, procs = [12], ['ssh'], ['linux'], ['tomcat']
+        topo = [[1, 1], [1, 1]]
+        sens_addrs = [(1, 11), (1, 2)]
+        edefs = [('e_ssh', 0)]
+        pdefs = [('pe_tomcat', 0)]
     else:
         sizes, services, oss, procs = [2, 1], ['ssh', 'ftp'], ['linux', 'windows'], ['tomcat', 'daclsvc']
         topo = [[1, 1, 0], [1, 1, 1], [0, 1, 1]]
